@@ -20,12 +20,15 @@ def sha_dir(d: Path, skip=()):
     return out
 
 
-def build_inputs(rng, d: Path, driver, with_crs, stem, empty_area=False):
+LINE_GADGETS = ["valid_x", "valid_y", "vnode", "multijunction", "stacked", "underlap", "overlap", "cuts_itself", "sharp", "valid_single"]
+
+
+def build_inputs(rng, d: Path, driver, with_crs, stem, empty_area=False, pool=None):
     import geopandas as gpd
     from shapely.geometry import box
 
     G = gadgets()
-    names = rng.sample(["valid_x", "valid_y", "vnode", "multijunction", "stacked", "underlap", "overlap", "cuts_itself", "sharp", "mls_mergeable", "valid_single"], rng.randint(2, 5))
+    names = rng.sample(pool or (LINE_GADGETS + ["mls_mergeable"]), rng.randint(2, 5))
     geoms = []
     for i, nm in enumerate(names):
         geoms += [place(g, 40.0 * i, 0.0) for g in G[nm]]
@@ -156,10 +159,11 @@ def s19_network(ctx):
     runner = CliRunner()
     tmp = Path(tempfile.mkdtemp(prefix="fv_c19n_", dir="/var/tmp"))
     try:
-        for k in range(budget(ctx.tier, 3, 20)):
+        for k in range(budget(ctx.tier, 4, 24)):
             d = tmp / f"n{k}"
             d.mkdir()
-            tp, ap, names = build_inputs(rng, d, "GPKG", True, "net")
+            # the network command works on single-part lines (validated data): multi-part rows are rejected by the CLI and by the library alike
+            tp, ap, names = build_inputs(rng, d, "GPKG", True, "net", pool=LINE_GADGETS)
             trunc = rng.random() < 0.7
             bo, no = d / "b.gpkg", d / "n.gpkg"
             before = sha_dir(d)
@@ -175,7 +179,16 @@ def s19_network(ctx):
                 if after.get(f) != h:
                     problems.append(f"input {f} changed")
             if not bo.exists() or not no.exists():
-                problems.append(f"branch/node files not written (exit {r.exit_code}: {str(r.exception)[:100]})")
+                try:
+                    Network(trace_gdf=gpd.read_file(tp), area_gdf=gpd.read_file(ap), snap_threshold=0.01, determine_branches_nodes=True, name="netname",
+                            circular_target_area=False, truncate_traces=trunc)
+                    lib_raises = None
+                except Exception as e:  # noqa: BLE001
+                    lib_raises = type(e).__name__
+                if lib_raises is None:
+                    problems.append(f"branch/node files not written (exit {r.exit_code}: {str(r.exception)[:100]}) although the library extracts the same inputs")
+                else:
+                    res.skipped["library_raises_too"] = res.skipped.get("library_raises_too", 0) + 1
             else:
                 net = Network(trace_gdf=gpd.read_file(tp), area_gdf=gpd.read_file(ap), snap_threshold=0.01, determine_branches_nodes=True, name="netname",
                               circular_target_area=False, truncate_traces=trunc)
